@@ -48,7 +48,17 @@ SkelSet == UNION {Blocks(n, FALSE) : n \in 1..MaxNodes}
 VARIABLE sk
 SkelInit == sk \in SkelSet /\ a = 0 /\ b = 0 /\ c = 0 /\ done = FALSE
 
-Init == IF Family = "skel" THEN SkelInit ELSE (IF Family = "cmp" THEN CmpInit ELSE BinInit) /\ sk = <<>>
+(* ---- family "tflow": sequences of up to MaxNodes types assigned to one name, at each kind of site (C02) ---- *)
+Types == <<"int", "float", "bool", "str">>
+Sites == <<"straight", "taken-branch", "untaken-branch", "else-branch", "for-body", "while-body", "function-local",
+           "param-two-call-sites", "return-join", "hoisted-from-branch", "hoisted-from-loop", "augmented", "swap">>
+TFlowInit == /\ a \in 1..Len(Sites) /\ b \in 1..Len(Types)
+             /\ c \in (IF MaxNodes >= 2 THEN 0..Len(Types) ELSE {0}) /\ done = FALSE
+TFlowCase == [fam |-> "tflow", site |-> Sites[a], t1 |-> Types[b], t2 |-> (IF c = 0 THEN "none" ELSE Types[c])]
+
+Init == IF Family = "skel" THEN SkelInit
+        ELSE (IF Family = "cmp" THEN CmpInit ELSE IF Family = "tflow" THEN TFlowInit ELSE BinInit) /\ sk = <<>>
 Next == done = FALSE /\ done' = TRUE /\ UNCHANGED <<a, b, c, sk>>
-Emit == done => PrintT(ToJson(IF Family = "skel" THEN [fam |-> "skel", body |-> sk] ELSE BinCase))
+Emit == done => PrintT(ToJson(IF Family = "skel" THEN [fam |-> "skel", body |-> sk]
+                              ELSE IF Family = "tflow" THEN TFlowCase ELSE BinCase))
 =============================================================================
